@@ -49,11 +49,22 @@ mod native {
     }
 
     /// Simple string-based cache key compatible with cascette-cache
-    #[derive(Debug, Clone, PartialEq, Eq)]
+    #[derive(Debug, Clone)]
     pub struct ProtocolCacheKey {
         key: String,
         cached_key: OnceLock<String>,
     }
+
+    // Equality must agree with `Hash` and ignore the lazily filled
+    // `cached_key` cell: a key that has already been rendered and a fresh key
+    // for the same string are the same key.
+    impl PartialEq for ProtocolCacheKey {
+        fn eq(&self, other: &Self) -> bool {
+            self.key == other.key
+        }
+    }
+
+    impl Eq for ProtocolCacheKey {}
 
     impl std::hash::Hash for ProtocolCacheKey {
         fn hash<H: std::hash::Hasher>(&self, state: &mut H) {
